@@ -305,22 +305,22 @@ fn check(prop: &str, tier: &str) -> i32 {
     }
     // micro-schedule stage (C13): result file written by tools/micro.sh just before this driver ran
     let mut micro: Option<Value> = None;
-    if property == "C13" {
-        let mp = root.join("work").join("C13-micro.json");
+    if property == "C13" || property == "C15" || property == "C16" {
+        let mp = root.join("work").join(format!("{property}-micro.json"));
         if let Ok(t) = std::fs::read_to_string(&mp) {
-            let m: Value = serde_json::from_str(&t).unwrap_or_else(|e| die(&format!("C13-micro.json: {e}")));
+            let m: Value = serde_json::from_str(&t).unwrap_or_else(|e| die(&format!("micro.json: {e}")));
             if m["harness_errors"].as_array().is_some_and(|a| !a.is_empty()) {
                 die(&format!("micro-schedule stage: {}", m["harness_errors"]));
             }
             for v in m["violations"].as_array().cloned().unwrap_or_default() {
                 let class = v["class"].as_str().unwrap_or("").to_string();
                 let replay = v["replay"].as_str().unwrap_or("").to_string();
-                if let Some(k) = known.findings.iter().find(|k| k.status == "known" && k.property == "C13" && k.class == class) {
-                    println!("KNOWN-FINDING: property=C13 {} [{}] (replay={})", k.what, class, replay);
+                if let Some(k) = known.findings.iter().find(|k| k.status == "known" && k.property == property && k.class == class) {
+                    println!("KNOWN-FINDING: property={property} {} [{}] (replay={})", k.what, class, replay);
                     known_hits.push(class.clone());
                 } else {
                     new_violations += 1;
-                    println!("VIOLATION property=C13 replay={replay}");
+                    println!("VIOLATION property={property} replay={replay}");
                     println!("  class: {class}   ({} interleaving(s))", v["runs"]);
                     println!("  detail: {}", v["detail"].as_str().unwrap_or(""));
                     println!("  replay: ./check replay {replay}   (one Miri seed = one exactly repeatable interleaving)");
@@ -588,6 +588,10 @@ fn main() {
                     continue;
                 }
                 for a in o.artifacts {
+                    // the interpreter needs ~10 s per kilobyte: keep the subjects short
+                    if a["text"].as_str().is_none_or(|t| t.len() > 1000) {
+                        continue;
+                    }
                     let codes: Vec<String> = a["codes"].as_array().map(|c| c.iter().filter_map(|x| x.as_str().map(|s| s.to_string())).collect()).unwrap_or_default();
                     let mut d = codes.clone();
                     d.sort();
@@ -610,8 +614,39 @@ fn main() {
                     }
                 }
             }
-            std::fs::write(out_path, serde_json::to_string_pretty(&outv).unwrap()).unwrap_or_else(|e| die(&format!("{e}")));
-            println!("exported {} subjects", outv.len());
+            // valid published messages (for the C15 micro mode): the shortest valid draw of every message type, the 8 shortest overall
+            let mut valid: Vec<(usize, Value)> = vec![];
+            {
+                let clock = ClockCfg::plain();
+                let ctx = clock.ctx(derive(base, "export/valid", 0));
+                let scs = env.scenarios.clone();
+                let r = on_fresh_thread(move || {
+                    let _a = seam::attach(&ctx);
+                    let mut best: BTreeMap<String, (usize, String)> = BTreeMap::new();
+                    for sc in &scs {
+                        let Some(g) = datafake_rs::DataGenerator::from_value(sc.value.clone()).ok().and_then(|g| g.generate().ok()) else { continue };
+                        let Ok(text) = mt::json_to_text(&sc.mt, &g) else { continue };
+                        let Ok(p) = mt::parse_auto(&text) else { continue };
+                        if !mt::vnr(&p, false).is_empty() {
+                            continue;
+                        }
+                        let e = best.entry(sc.mt.clone()).or_insert((usize::MAX, String::new()));
+                        if text.len() < e.0 {
+                            *e = (text.len(), text);
+                        }
+                    }
+                    best
+                });
+                if let Ok(best) = r {
+                    for (mtt, (len, text)) in best {
+                        valid.push((len, json!({"mt": mtt, "text": text})));
+                    }
+                }
+            }
+            valid.sort_by_key(|v| v.0);
+            let valid: Vec<Value> = valid.into_iter().take(8).map(|v| v.1).collect();
+            std::fs::write(out_path, serde_json::to_string_pretty(&json!({"multi_error": outv, "valid": valid})).unwrap()).unwrap_or_else(|e| die(&format!("{e}")));
+            println!("exported {} multi-error subjects and {} valid messages", outv.len(), valid.len());
         }
         "replay" => {
             let path = args.get(2).unwrap_or_else(|| die("usage: replay <file>"));
